@@ -957,6 +957,7 @@ def generate_request_object(
     service: wrappers.Service,
     message: wrappers.MessageType,
     field_name_prefix: str = "",
+    _ancestors: Tuple[str, ...] = (),
 ):
     """Generate dummy input for a given message.
 
@@ -1004,16 +1005,19 @@ def generate_request_object(
 
             request.append({"field": field_name, "value": field_value})
         else:
-            # This is a message type, recurse
-            # TODO(busunkim):  Some real world APIs have
-            # request objects are recursive.
-            # Reference `Field.mock_value` to ensure
-            # this always terminates.
+            # This is a message type, recurse.
+            # Some real world APIs have request objects that are recursive:
+            # do not descend into a message type that is already being
+            # populated, so that this always terminates.
+            ancestors = _ancestors + (str(message.ident),)
+            if str(field.type.ident) in ancestors:
+                continue
             request += generate_request_object(
                 api_schema,
                 service,
                 field.type,
                 field_name_prefix=field_name,
+                _ancestors=ancestors,
             )
 
     return request
